@@ -41,6 +41,7 @@ def parseAction (s : String) : Option Action :=
     | "pos" => some (.pos (parseInt arg))
     -- a press of one of the --expect keys ends the session like accept (the key is named in the output)
     | "xkey" => some .accept
+    | "change-multi" => some (.changeMulti (if arg == "e" then none else (String.mk ((dotBytes arg).map Char.ofNat)).toNat?))
     | _ => none
   | _ => none
 
@@ -96,7 +97,7 @@ def setup (ctx : Algo.Ctx) (optS lines steps : String) : Setup :=
     let layout := match o "layout" "default" with | "reverse" => Layout.reverse | "reverse-list" => .reverseList | _ => .default
     let texts := ls.toArray
     let top : Opts := {
-      multi := (o "multi" "0").toNat!, cycle := o "cycle" "0" == "1", layout, track := o "track" "0" == "1", maxItems := rows - (o "fixed" "2").toNat!,
+      multi := (if (o "multi" "0").toNat! == 1000 then unlimitedMulti else (o "multi" "0").toNat!), cycle := o "cycle" "0" == "1", layout, track := o "track" "0" == "1", maxItems := rows - (o "fixed" "2").toNat!,
       inputRows := (o "fixed" "2").toNat!, total := ls.length,
       isWord := isWord ctx, resultsOf,
       itemText := fun i => (Fzf.Filter.toChars (texts.getD i [])).1.toList }
@@ -120,10 +121,11 @@ def run (ctx : Algo.Ctx) (op : String) (args impl : List String) : Outcome :=
     let texts := su.texts
     let ls := su.ls
     if parsed.any (·.any Option.isNone) then { model := "unknown-action" } else
-    let (final, obs) := parsed.foldl (fun (acc : TS × List String) as =>
-      let s' := step top acc.1 (as.filterMap id)
+    let ((_, final), obs) := parsed.foldl (fun (acc : (Opts × TS) × List String) as =>
+      let r := stepM acc.1.1 acc.1.2 (as.filterMap id)
       -- once an action ends the session there is nothing left to observe
-      (s', if s'.outcome.isSome then acc.2 else acc.2 ++ [showObs s'])) (init, [])
+      (r, if r.2.outcome.isSome then acc.2 else acc.2 ++ [showObs r.2])) ((top, init), [])
+    let multiChanges := parsed.any (·.any fun a => match a with | some (.changeMulti _) => true | _ => false)
     -- output on exit
     let printq := o "printq" "0" == "1"
     let nl (x : Str) := x ++ [if o "print0" "0" == "1" then 0 else 10]
@@ -181,7 +183,7 @@ def run (ctx : Algo.Ctx) (op : String) (args impl : List String) : Outcome :=
             let n := mc.toNat!
             let p := parseInt pos
             let selN := (dotBytes sel).length
-            !((n == 0 ∧ cur == "n") ∨ (n > 0 ∧ 0 ≤ p ∧ p < n ∧ cur != "n")) ∨ selN > top.multi
+            !((n == 0 ∧ cur == "n") ∨ (n > 0 ∧ 0 ≤ p ∧ p < n ∧ cur != "n")) ∨ (!multiChanges ∧ selN > top.multi)
           | _ => true
         match bad with
         | some r => specFail s!"[C09] cursor outside the results or selection over the --multi limit: {r}"
